@@ -7,6 +7,7 @@ import (
 	"strings"
 
 	"golang.org/x/tools/go/packages"
+	"golang.org/x/tools/go/ssa"
 )
 
 func init() {
@@ -26,6 +27,7 @@ func init() {
 			ruleC11M2(r, pk)
 			ruleC11M5(r, pk)
 			ruleC11M6(r)
+			ruleC11M7(r)
 		},
 	})
 }
@@ -304,4 +306,42 @@ func ruleC11M6(r *Run) {
 			r.Check(fmt.Sprintf("%s.%s", tname(n), m.method), ok, p.pos(fn.Pos()), fnName(fn), fmt.Sprintf("%s reaches %s: %v", m.method, m.conv, ok))
 		}
 	}
+}
+
+// ruleC11M7: pooled codec buffers are reset before they go back to the pool, on every path.
+func ruleC11M7(r *Run) {
+	r.Begin("M7", "byte accounting with pooled buffers: every sync.Pool.Put of a buffer obtained from a pool in a codec is preceded, in the same function body, by Reset() on that buffer — so that a rejected frame cannot leave stale bytes that the next decode counts or parses", 2)
+	p := r.P
+	n := 0
+	for _, fn := range p.Funcs {
+		pk := fnPkgPath(fn)
+		if !strings.HasPrefix(pk, modPath+"/encoding") && !strings.HasPrefix(pk, modPath+"/transport") {
+			continue
+		}
+		allInstrs(fn, func(ins ssa.Instruction) {
+			cc := instrCall(ins)
+			if cc == nil || !isCallNamed(ins, "sync.Pool.Put") {
+				return
+			}
+			n++
+			name := fnName(fn)
+			buf := cc.Args[1]
+			if mi, ok := buf.(*ssa.MakeInterface); ok {
+				buf = mi.X
+			}
+			target := canonVal(buf)
+			ok := false
+			if _, isDefer := ins.(*ssa.Defer); !isDefer {
+				allInstrs(fn, func(x ssa.Instruction) {
+					if c, isCall := x.(*ssa.Call); isCall {
+						if o := calleeObj(&c.Call); o != nil && o.Name() == "Reset" && len(c.Call.Args) > 0 && canonVal(c.Call.Args[0]) == target && dominatesInstr(c, ins) {
+							ok = true
+						}
+					}
+				})
+			}
+			r.Check(fmt.Sprintf("%s Put#%d", name, n), ok, posOf(p, ins), name, "the buffer returned to the pool must have been Reset() on every path (a directly deferred Put, or a Put without a dominating Reset, recycles stale bytes)")
+		})
+	}
+	r.Stat("pool_puts", n)
 }
